@@ -20,7 +20,7 @@ import sys
 import time
 
 VERIF = os.path.dirname(os.path.dirname(os.path.abspath(__file__)))
-LEAN = os.path.join(VERIF, 'lean')
+LEAN = os.environ.get('VERIF_LEAN', os.path.join(VERIF, 'lean'))      # VERIF_LEAN: a scratch copy of the Lean project (development only)
 REPO = os.environ.get('VERIF_REPO', '/repo')
 DRV = os.path.join(LEAN, '.lake', 'build', 'bin', 'drv')
 ALLOWED_AXIOMS = {'propext', 'Classical.choice', 'Quot.sound'}
